@@ -809,3 +809,58 @@ pub fn verif_with_queued_iter<R>(events: &[(Event, u16)], f: impl FnOnce(QueuedI
     }
     f(QueuedIter(q.iter()))
 }
+
+// ---------------------------------------------------------------------------------------------
+// C02 / cross-check of an ASSUMED contract: arraydeque::ArrayDeque<_, N, Wrapping> as the Verus units
+// oneshot / waiting / seqs assume it (push_back: append, or evict-and-return the front when full;
+// pop_front; get; clear; len; is_empty) - on the real crate, capacity 4
+// (the real capacity of Layout::active_sequences), every fill level 0..=4, symbolic elements.
+// `remove(i)` is NOT cross-checked: CBMC reported a failure for it that its own concrete playback
+// does not reproduce and a native run contradicts (a tool artefact around ptr::copy of overlapping
+// ranges); it stays an assumed contract (used once, by Layout::waiting_into_* for extra_waiting).
+// ---------------------------------------------------------------------------------------------
+#[kani::proof]
+#[kani::unwind(6)]
+fn c02_k_arraydeque_wrapping_contract() {
+    type D = ArrayDeque<u16, 4, arraydeque::behavior::Wrapping>;
+    let vals: [u16; 4] = kani::any();
+    let n: usize = kani::any();
+    kani::assume(n <= 4);
+    let mut d: D = ArrayDeque::new();
+    assert!(d.is_empty() && d.len() == 0);
+    let mut i = 0;
+    while i < n {
+        assert!(d.push_back(vals[i]).is_none()); // below capacity: appended, nothing evicted
+        i += 1;
+    }
+    assert!(d.len() == n && d.is_empty() == (n == 0));
+    // get(i): the i-th from the front; None beyond the end
+    let g: usize = kani::any();
+    kani::assume(g <= 5);
+    if g < n { assert!(d.get(g) == Some(&vals[g])); } else { assert!(d.get(g).is_none()); }
+    let which: u8 = kani::any();
+    let x: u16 = kani::any();
+    if which == 0 {
+        // push_back: full -> the FRONT is evicted and handed back, the rest shifts, x is last
+        let r = d.push_back(x);
+        if n < 4 {
+            assert!(r.is_none() && d.len() == n + 1 && d.get(n) == Some(&x));
+            if n > 0 { assert!(d.get(0) == Some(&vals[0])); }
+        } else {
+            assert!(r == Some(vals[0]) && d.len() == 4);
+            assert!(d.get(0) == Some(&vals[1]) && d.get(2) == Some(&vals[3]) && d.get(3) == Some(&x));
+        }
+    } else if which == 1 {
+        // pop_front
+        let r = d.pop_front();
+        if n == 0 { assert!(r.is_none() && d.len() == 0); }
+        else {
+            assert!(r == Some(vals[0]) && d.len() == n - 1);
+            if n > 1 { assert!(d.get(0) == Some(&vals[1])); }
+        }
+    } else {
+        d.clear();
+        assert!(d.is_empty() && d.len() == 0 && d.get(0).is_none());
+    }
+    kani::cover!(n == 4 && which == 0, "wrap of a full deque reached");
+}
